@@ -166,3 +166,55 @@ Theorem C18_key_crlf_refuted :
   cv_docs (fst (write_csv [ex_cR])) <> (table_docs (field_names ex_cR) (int_rows [ex_cR]), CvOk).
 Proof. exact key_crlf_refuted. Qed.
 Print Assumptions C18_key_crlf_refuted.
+
+(* ---- oracle = theorem: the executable oracles of Model/CsvOk.v, which the driver
+   ocaml/c18_run.ml evaluates on the implementation's observations, accept the model's
+   own observations (model_obs_write / model_obs_dump, exactly what the driver
+   recomputes) for EVERY chunk stream outside the class key-crlf (the class of the known
+   finding C18_key_crlf_refuted; no other hypothesis: any metric counts, zero included,
+   any count changes, datetime columns, the lone empty key).  They are the reflected form
+   of C18_write, C18_write_error, C18_dump, C18_date_is_text and of C18_quote_roundtrip
+   extended to records that CSV cannot show (proofs in Proofs/OracleSoundC18.v) ---- *)
+From FV.Proofs Require OracleSoundC18.
+
+Theorem C18_oracle_write_sound : forall cs, class_key_crlf cs = false ->
+  c18_ok_write cs (fst (model_obs_write cs)) (snd (model_obs_write cs)) = true.
+Proof. exact OracleSoundC18.c18_oracle_write_sound. Qed.
+Print Assumptions C18_oracle_write_sound.
+
+Theorem C18_oracle_dump_sound : forall cs, class_key_crlf cs = false ->
+  c18_ok_dump cs (model_obs_dump cs) false = true.
+Proof. exact OracleSoundC18.c18_oracle_dump_sound. Qed.
+Print Assumptions C18_oracle_dump_sound.
+
+(* the round trip: under the hypotheses of C18_roundtrip_reread (which imply the oracle's
+   own applicability test rt_applies except for "one key list throughout", a clause the
+   oracle does not need here), for every bucket size within the model reader's evaluation
+   cap (metric count * bucket <= delta_cap = 200000, the cap of the executable instance
+   x_read; the theorems about the reader itself use no cap): the model's own observation
+   model_obs_convert of the text the model's WriteCSV wrote - ConvertFromCSV with all
+   clock readings 0 into a writer that does not fail, then the model reader, as the driver
+   computes it - reports no conversion error and no read error, every chunk read back
+   carries the first chunk's keys, the rows read back are the original integer table, and
+   c18_ok_roundtrip is true.  Reflected form of C18_roundtrip_reread, re-proved on the
+   chunk level through C02_table (proofs in Proofs/OracleSoundC18rt.v) *)
+From FV.Model Require Import Instance.
+From FV.Proofs Require OracleSoundC18rt.
+
+Theorem C18_oracle_roundtrip_sound : forall c cs n bucket,
+  Forall (fun c' => nmetrics c' = n) (c :: cs) ->
+  Forall (fun c' => has_date c' = false) (c :: cs) ->
+  record_ok (field_names c) = true ->
+  Forall (Forall (fun z => in_i64 z = true)) (int_rows (c :: cs)) ->
+  Forall (fun k => key_ok k = true) (field_names c) ->
+  (N.of_nat n < 2 ^ 32)%N ->
+  Forall (fun d => small (enc_doc d)) (table_docs (field_names c) (int_rows (c :: cs))) ->
+  (1 <= bucket < 2 ^ 31)%Z ->
+  (N.of_nat n * Z.to_N bucket <= delta_cap)%N ->
+  exists mcs,
+    model_obs_convert (fst (model_obs_write (c :: cs))) bucket = (mcs, false, false) /\
+    Forall (fun kr => fst kr = field_names c) (map chunk_view mcs) /\
+    flat_map snd (map chunk_view mcs) = int_rows (c :: cs) /\
+    c18_ok_roundtrip (c :: cs) (map chunk_view mcs) false false = true.
+Proof. exact OracleSoundC18rt.c18_oracle_roundtrip_sound. Qed.
+Print Assumptions C18_oracle_roundtrip_sound.
